@@ -25,6 +25,9 @@ pub struct Case {
 	pub sock_root_set: bool,
 	pub env_at_global: bool,
 	pub umask077: bool,
+	/// the CA's tls-alpn-01 validator offers TLS 1.2 at most
+	#[serde(default)]
+	pub ca_tls_max12: bool,
 }
 
 pub fn strategy() -> impl Strategy<Value = Case> {
@@ -39,8 +42,9 @@ pub fn strategy() -> impl Strategy<Value = Case> {
 		any::<bool>(),
 		any::<bool>(),
 		prop_oneof![4 => Just(false), 1 => Just(true)],
+		any::<bool>(),
 	)
-		.prop_map(|(group, with_git, labels, n_ids, issuances, host, pid_root_set, sock_root_set, env_at_global, umask077)| Case {
+		.prop_map(|(group, with_git, labels, n_ids, issuances, host, pid_root_set, sock_root_set, env_at_global, umask077, ca_tls_max12)| Case {
 			group: group.to_string(),
 			with_git,
 			labels,
@@ -51,6 +55,7 @@ pub fn strategy() -> impl Strategy<Value = Case> {
 			sock_root_set,
 			env_at_global,
 			umask077,
+			ca_tls_max12,
 		})
 }
 
@@ -123,7 +128,7 @@ fn exec_in(case: &Case, acmed: &std::path::Path, tacd: &std::path::Path, dir: &s
 	let port = free_port();
 	let mut env = serde_json::Map::new();
 	env.insert(bb::CERT_ENV.into(), json!("c1"));
-	let mut validate = Validate { http_root: None, tls: None, patience_ms: 5000 };
+	let mut validate = Validate { http_root: None, tls: None, patience_ms: 5000, tls_max12: case.ca_tls_max12 };
 	let pid_root_eff;
 	let mut sock_root_eff = "/run".to_string();
 	match case.group.as_str() {
@@ -289,6 +294,9 @@ fn exec_in(case: &Case, acmed: &std::path::Path, tacd: &std::path::Path, dir: &s
 	let mut classes = vec![format!("group={}", case.group), format!("git={}", case.with_git), format!("issuances={}", case.issuances), format!("ids={}", ids.len())];
 	if tcp {
 		classes.push(format!("host={}", case.host));
+	}
+	if !case.group.starts_with("http") {
+		classes.push(format!("validator_tls={}", if case.ca_tls_max12 { "<=1.2" } else { "all" }));
 	}
 	if !case.group.starts_with("http") {
 		classes.push(format!("pid_root={}", if pid_root_eff == "/run" { "default" } else { "set" }));
